@@ -886,6 +886,9 @@ def read_outcome(a, password, op, members, limit=3.0):
     except PasswordRequired:
         return ("refused", "PasswordRequired")
     except Exception as e:  # noqa
+        import traceback
+        fr = traceback.extract_tb(e.__traceback__)[-1]
+        read_outcome.where = "%s: %s @ %s:%d" % (type(e).__name__, str(e)[:80], os.path.basename(fr.filename), fr.lineno)
         return ("error", type(e).__name__)
     finally:
         signal.setitimer(signal.ITIMER_PROF, 0)
@@ -908,6 +911,7 @@ def read_outcome(a, password, op, members, limit=3.0):
 
 
 read_outcome.left = []
+read_outcome.where = ""
 
 
 def worker_outcomes(arg):
@@ -916,8 +920,9 @@ def worker_outcomes(arg):
     members = [(n, bytes.fromhex(d)) for n, d in arg["members"]]
     out = []
     for pw, op in arg["cases"]:
+        read_outcome.where = ""
         cls, det = read_outcome(a, pw, op, members, limit=arg.get("limit", 3.0))
-        out.append([cls, str(det)[:200], [list(x) for x in read_outcome.left]])
+        out.append([cls, str(det)[:200], [list(x) for x in read_outcome.left], read_outcome.where])
     return out
 
 
@@ -927,6 +932,19 @@ def sandbox_outcomes(a, members, cases, limit=3.0, timeout=None):
     if r["status"] != "ok":
         return None, r
     return r["value"], r
+
+
+def confirm(rep, a, members, p, op, pk, hmode, limit=8.0):
+    """a candidate violation is reported only if it shows again alone, in a fresh process, with a longer watchdog:
+    every reported outcome has a replay that reproduces"""
+    res, raw = sandbox_outcomes(a, members, [[p, op]], limit=limit)
+    if res is None:
+        return True, "crash", str(raw)[:200]
+    cls, det, left, where = res[0]
+    if allowed(pk, hmode, op, cls):
+        rep.extra.setdefault("not_reproduced", []).append({"with": p, "op": op, "second_run": cls})
+        return False, cls, where or det
+    return True, cls, where or det
 
 
 def allowed(pwkind, hmode, op, cls):
@@ -987,7 +1005,7 @@ def check_outcomes(ctx, rep, rng, tier):
                            "members": [[n, d.hex()] for n, d in members], "cases": cases},
                           match_keys={"kind": "outcome-crash", "chain": chain})
             continue
-        for (p, op), kind, (cls, det, left) in zip(cases, kinds, res):
+        for (p, op), kind, (cls, det, left, where) in zip(cases, kinds, res):
             pk = kind if kind in ("right", "absent") else "wrong"
             rep.count(("outcome", chain, hmode, setter, pw, p, op), nontrivial=True)
             rep.dist("outcome_%s" % pk, "%s:%s" % (cls, det.split(" names ")[0] if cls in ("error", "refused") else ""))
@@ -998,9 +1016,12 @@ def check_outcomes(ctx, rep, rng, tier):
                 if pk != "right" and sz == 0:
                     empty_left += 1
             if not allowed(pk, hmode, op, cls):
+                still, cls, where = confirm(rep, a, members, p, op, pk, hmode)
+                if not still:
+                    continue
                 shape = "%s-password-%s" % (pk, cls)
                 rep.violation("%s, header mode %d, password %r, reading with %r (%s): %s -> %s (%s)" % (
-                    chain, hmode, pw, p, kind, op, cls, det),
+                    chain, hmode, pw, p, kind, op, cls, where or det),
                     {"kind": "outcome", "chain": chain, "hmode": hmode, "setter": setter, "password": pw, "with": p, "op": op,
                      "archive": a.hex(), "members": [[n, d.hex()] for n, d in members], "class": cls},
                     match_keys={"kind": "outcome", "shape": shape, "op": op, "hmode": hmode})
@@ -1097,12 +1118,20 @@ def check_many_wrong(ctx, rep, rng, tier):
         tot = sum(counts.values())
         rep.count(("many-wrong", chain, hmode), nontrivial=True, n=tot)
         for cls, (w, det) in ex.items():
+            still, cls2, det2 = confirm(rep, a, members, w, "extractall_factory", "wrong", hmode, limit=5.0)
+            if not still:
+                continue
+            cls, det = cls2, det2
+            mk = {"kind": "outcome", "shape": "wrong-password-%s" % cls, "op": "extractall_factory", "hmode": hmode}
+            if cls == "empty-archive" and hmode == 2:
+                # the same defect as check_header_accept's replay, met by chance (probability 2^-16 per password)
+                mk = {"kind": "header-accept", "shape": "wrong-password-empty-archive", "hmode": 2}
             rep.violation("%s, header mode %d (numcyclespower 0 archive), wrong password %r: extractall -> %s (%s); %d of %d wrong "
                           "passwords end this way" % (chain, hmode, w, cls, det, counts.get(cls, 0), tot),
                           {"kind": "outcome", "chain": chain, "hmode": hmode, "password": "right-password", "with": w,
                            "op": "extractall_factory", "archive": a.hex(), "members": [[n, d.hex()] for n, d in members],
                            "class": cls, "cycles": 0},
-                          match_keys={"kind": "outcome", "shape": "wrong-password-%s" % cls, "op": "extractall_factory", "hmode": hmode})
+                          match_keys=mk)
     rep.extra["wrong_passwords_at_scale"] = summary
 
 
